@@ -577,12 +577,12 @@ var fundEdits = []fundEdit{
 
 type settleEdit struct {
 	name string
-	edit func(rng *rand.Rand, cur, orig *channel.State, fin, pre *channel.State) *channel.State
+	edit func(rng *rand.Rand, cur, orig *channel.State, fin, pre, snap *channel.State) *channel.State
 }
 
 var settleEdits = []settleEdit{
-	{"control-honest-settlement", func(rng *rand.Rand, cur, orig *channel.State, fin, pre *channel.State) *channel.State { return orig }},
-	{"everything-credited-to-the-sender", func(rng *rand.Rand, cur, orig *channel.State, fin, pre *channel.State) *channel.State {
+	{"control-honest-settlement", func(rng *rand.Rand, cur, orig *channel.State, fin, pre, snap *channel.State) *channel.State { return orig }},
+	{"everything-credited-to-the-sender", func(rng *rand.Rand, cur, orig *channel.State, fin, pre, snap *channel.State) *channel.State {
 		changed := false
 		for ai := range orig.Balances {
 			tot := new(big.Int).Add(fin.Balances[ai][0], fin.Balances[ai][1])
@@ -597,7 +597,7 @@ var settleEdits = []settleEdit{
 		}
 		return orig
 	}},
-	{"credits-swapped", func(rng *rand.Rand, cur, orig *channel.State, fin, pre *channel.State) *channel.State {
+	{"credits-swapped", func(rng *rand.Rand, cur, orig *channel.State, fin, pre, snap *channel.State) *channel.State {
 		changed := false
 		for ai := range orig.Balances {
 			if fin.Balances[ai][0].Cmp(fin.Balances[ai][1]) != 0 {
@@ -611,14 +611,14 @@ var settleEdits = []settleEdit{
 		}
 		return orig
 	}},
-	{"also-renames-another-sub-allocation", func(rng *rand.Rand, cur, orig *channel.State, fin, pre *channel.State) *channel.State {
+	{"also-renames-another-sub-allocation", func(rng *rand.Rand, cur, orig *channel.State, fin, pre, snap *channel.State) *channel.State {
 		if len(orig.Locked) < 1 {
 			return nil
 		}
 		orig.Locked[0].ID[7] ^= 2
 		return orig
 	}},
-	{"credits-the-balances-before-the-final-update", func(rng *rand.Rand, cur, orig *channel.State, fin, pre *channel.State) *channel.State {
+	{"credits-the-balances-before-the-final-update", func(rng *rand.Rand, cur, orig *channel.State, fin, pre, snap *channel.State) *channel.State {
 		// the sub-channel's final update also moved funds; the settlement pays out the state before it
 		changed := false
 		for ai := range orig.Balances {
@@ -634,7 +634,23 @@ var settleEdits = []settleEdit{
 		}
 		return orig
 	}},
-	{"one-unit-from-the-victim", func(rng *rand.Rand, cur, orig *channel.State, fin, pre *channel.State) *channel.State {
+	{"credits-on-top-of-the-parent-state-at-finalization", func(rng *rand.Rand, cur, orig *channel.State, fin, pre, snap *channel.State) *channel.State {
+		// the parent moved on after the sub-channel became final; the settlement ignores that
+		changed := false
+		for ai := range orig.Balances {
+			for p := 0; p < 2; p++ {
+				if snap.Balances[ai][p].Cmp(cur.Balances[ai][p]) != 0 {
+					changed = true
+				}
+				orig.Balances[ai][p] = new(big.Int).Add(snap.Balances[ai][p], fin.Balances[ai][p])
+			}
+		}
+		if !changed {
+			return nil
+		}
+		return orig
+	}},
+	{"one-unit-from-the-victim", func(rng *rand.Rand, cur, orig *channel.State, fin, pre, snap *channel.State) *channel.State {
 		if orig.Balances[0][1].Sign() <= 0 {
 			return nil
 		}
@@ -860,6 +876,11 @@ func history(s sink.Sink, em *childrun.Emitter, rng *rand.Rand, sample bool) int
 				last = 0
 			}
 			if err := a.M.Pay(sub, 0, last, true); err == nil {
+				// the parent may move on between the finalization and the settlement
+				snap := a.chV.State().Clone()
+				if rng.Intn(2) == 0 {
+					_ = a.M.Pay(a.chM, 0, int64(1+rng.Intn(3)), false)
+				}
 				se := settleEdits[rng.Intn(len(settleEdits))]
 				point := "sub-channel-settlement"
 				a.setCase(point, se.name)
@@ -871,7 +892,7 @@ func history(s sink.Sink, em *childrun.Emitter, rng *rand.Rand, sample bool) int
 					var out *channel.State
 					func() {
 						defer func() { _ = recover() }()
-						out = se.edit(rng, cur, orig, fin, pre)
+						out = se.edit(rng, cur, orig, fin, pre, snap)
 					}()
 					applied = out != nil
 					return out
